@@ -25,7 +25,7 @@ TStep ==
   /\ LET c == Batches[tid][l]
          e == Expected(c)
      IN  /\ ok' = (e = c.out)
-         /\ (e = c.out) \/ PrintT(<<"MISMATCH", tid, l, ToJson([fn |-> c.fn, spec |-> e])>>)
+         /\ IF e = c.out THEN TRUE ELSE PrintT(<<"MISMATCH", tid, l, ToJson([fn |-> c.fn, spec |-> e])>>)
   /\ l' = l + 1 /\ tid' = tid
 TDone == l > Len(Batches[tid]) /\ UNCHANGED <<tid, l, ok>>
 TSpec == TInit /\ [][TStep \/ TDone]_<<tid, l, ok>>
